@@ -36,4 +36,14 @@ example : encode [0xfb, 0xff] = ['-', '_', '8'] := by decide
 example : decode ['-', '_', '8', '=', '='] = .ok [0xfb, 0xff] := by rfl
 example : decode ['A'] = .error (nonlibErr "binascii.Error" "b64.bad-length") := by rfl
 
+/-- The text is of the canonical length: ⌈4n/3⌉ characters for n bytes (no padding, nothing extra). -/
+theorem length (b : Bytes) : (encode b).length = (4 * b.length + 2) / 3 := by
+  fun_induction encode b with
+  | case1 => rfl
+  | case2 a => simp
+  | case3 a b => simp
+  | case4 a b c rest ih =>
+    simp only [List.length_cons, ih]
+    omega
+
 end Webauthn.Props.C14
